@@ -478,11 +478,17 @@ def hist_apply(f, bound, op):
 
 
 def hist_observe(f):
+  def unchecked(fn):
+    with pg.enable_type_check(False):      # switching validation off must not change which calls are well formed
+      return outcome(fn)
   return dict(
       call=outcome(lambda: f()),
       call_b=outcome(lambda: f(b=7)),
       call_pos=outcome(lambda: f(5)),
       call_override=outcome(lambda: f(b=7, override_args=True)),
+      call_b_unchecked=unchecked(lambda: f(b=7)),
+      call_pos_unchecked=unchecked(lambda: f(5)),
+      call_override_unchecked=unchecked(lambda: f(b=7, override_args=True)),
       specified=sorted(f.specified_args),
   )
 
@@ -501,7 +507,9 @@ def hist_model(bound):
       kw[k2] = v2
     return outcome(lambda: _hist_plain(**kw))
   return dict(call=call(), call_b=call(extra_kw=dict(b=7)), call_pos=call(extra_pos=(5,)),
-              call_override=call(extra_kw=dict(b=7), override=True), specified=sorted(bound))
+              call_override=call(extra_kw=dict(b=7), override=True),
+              call_b_unchecked=call(extra_kw=dict(b=7)), call_pos_unchecked=call(extra_pos=(5,)),
+              call_override_unchecked=call(extra_kw=dict(b=7), override=True), specified=sorted(bound))
 
 
 def hist_item(rec, item):
@@ -530,7 +538,7 @@ def hist_item(rec, item):
         try:
           g = hist_observe(cp())
           if how == 'json':
-            g.pop('specified'), g.pop('call_b')       # what counts as explicitly bound is not part of the JSON form
+            g.pop('specified'), g.pop('call_b'), g.pop('call_b_unchecked')       # what counts as explicitly bound is not part of the JSON form
           diff = [k for k in g if g[k] != want[k]]
           if diff:
             rec.viol(f'history-copy-differs/{how}/{diff[0]}', f'{start} then {hist!r}: {how} gives {diff[0]}={g[diff[0]]!r}, expected {want[diff[0]]!r}', tr)
